@@ -193,6 +193,9 @@ pub trait VecLike: Sized + ReadableVec<usize, Self::E> + 'static {
 
     fn v_import(db: &Database, name: &str, version: Version, keep: u16) -> VResult<Self>;
     fn v_forced_import(db: &Database, name: &str, version: Version, keep: u16) -> VResult<Self>;
+    /// the three-argument entry points (no options)
+    fn v_import3(db: &Database, name: &str, version: Version) -> VResult<Self>;
+    fn v_forced_import3(db: &Database, name: &str, version: Version) -> VResult<Self>;
 
     fn v_len(&self) -> usize;
     fn v_push(&mut self, v: Self::E);
@@ -265,6 +268,12 @@ macro_rules! common_methods {
         }
         fn v_forced_import(db: &Database, name: &str, version: Version, keep: u16) -> VResult<Self> {
             <Self as ImportableVec>::forced_import_with(opts(db, name, version, keep))
+        }
+        fn v_import3(db: &Database, name: &str, version: Version) -> VResult<Self> {
+            <Self as ImportableVec>::import(db, name, version)
+        }
+        fn v_forced_import3(db: &Database, name: &str, version: Version) -> VResult<Self> {
+            <Self as ImportableVec>::forced_import(db, name, version)
         }
         fn v_len(&self) -> usize {
             AnyVec::len(self)
@@ -497,6 +506,8 @@ pub enum VOp {
     ResetUnsaved,
     /// flush + db.flush + drop + import (same entry point, same version)
     Reimport,
+    /// like Reimport, with another retention setting (saved_stamped_changes)
+    ReimportKeep(u16),
     Update(usize),
     Delete(usize),
     Take(usize),
@@ -523,6 +534,7 @@ impl VOp {
             VOp::Reset => "reset",
             VOp::ResetUnsaved => "reset_unsaved",
             VOp::Reimport => "reimport",
+            VOp::ReimportKeep(_) => "reimport_keep",
             VOp::Update(_) => "update",
             VOp::Delete(_) => "delete",
             VOp::Take(_) => "take",
@@ -546,6 +558,7 @@ impl VOp {
             VOp::Delete(i) => json!(["delete", i]),
             VOp::Take(i) => json!(["take", i]),
             VOp::Commit(s) => json!(["commit", s]),
+            VOp::ReimportKeep(k) => json!(["reimport_keep", k]),
             VOp::RollbackBefore(s) => json!(["rollback_before", s]),
             VOp::BadUpdate(i) => json!(["bad_update", i]),
             VOp::BadCheckedPush(i) => json!(["bad_checked_push", i]),
@@ -568,6 +581,7 @@ impl VOp {
             "reset" => VOp::Reset,
             "reset_unsaved" => VOp::ResetUnsaved,
             "reimport" => VOp::Reimport,
+            "reimport_keep" => VOp::ReimportKeep(n()? as u16),
             "update" => VOp::Update(n()? as usize),
             "delete" => VOp::Delete(n()? as usize),
             "take" => VOp::Take(n()? as usize),
@@ -707,6 +721,11 @@ impl<T: Elem> VModel<T> {
                 VOutcome::Ok
             }
             VOp::Write | VOp::Flush | VOp::Reimport => {
+                self.mark_written();
+                VOutcome::Ok
+            }
+            VOp::ReimportKeep(k) => {
+                self.keep = *k;
                 self.mark_written();
                 VOutcome::Ok
             }
@@ -927,7 +946,8 @@ impl<V: VecLike> VecExec<V> {
                     v.v_reset_unsaved();
                     VOutcome::Ok
                 }
-                VOp::Reimport => {
+                VOp::Reimport | VOp::ReimportKeep(_) => {
+                    let keep = if let VOp::ReimportKeep(k) = op { *k } else { keep };
                     v.v_flush()?;
                     db.flush()?;
                     *slot = None;
@@ -1046,12 +1066,12 @@ impl<V: VecLike> VecExec<V> {
             }
         }
         self.classify_write(op, pre);
-        self.last_op_committed = matches!(op, VOp::Commit(_) | VOp::Rollback | VOp::RollbackBefore(_) | VOp::Reimport);
+        self.last_op_committed = matches!(op, VOp::Commit(_) | VOp::Rollback | VOp::RollbackBefore(_) | VOp::Reimport | VOp::ReimportKeep(_));
         self.compare(op.kind())
     }
 
     fn classify_write(&mut self, op: &VOp, pre: (usize, usize, usize, bool)) {
-        if !matches!(op, VOp::Write | VOp::Flush | VOp::StampedWrite(_) | VOp::Commit(_) | VOp::Reimport) {
+        if !matches!(op, VOp::Write | VOp::Flush | VOp::StampedWrite(_) | VOp::Commit(_) | VOp::Reimport | VOp::ReimportKeep(_)) {
             return;
         }
         let (stored, real, len, had_holes) = pre;
@@ -1320,7 +1340,15 @@ pub fn gen_vop<T: Elem>(
                 };
                 VOp::RollbackBefore(target)
             }
-            9 => VOp::Reimport,
+            9 => {
+                if rng.chance(1, 3) {
+                    // only positive settings: switching retention off while records exist leaves a
+                    // gap in the chain whose treatment the property does not define
+                    if model.keep == 0 { VOp::Reimport } else { VOp::ReimportKeep(*rng.pick(&[1u16, 2, 3, 5])) }
+                } else {
+                    VOp::Reimport
+                }
+            }
             _ => VOp::Reset,
         };
     }
